@@ -25,7 +25,7 @@ fn gen_leaf(s: &mut Src) -> V {
         1 => { let k = s.alt(2, &["real_small", "real_boundary", "real_random_bits"]);
                match k { 0 => real_v((s.draw(20001) as f32 - 10000.0) / 16.0), 1 => { let x = *s.pick(&BOUNDARY_REALS); if x.abs() >= 2147483648.0 { s.label("real>=2^31"); } real_v(x) }
                    _ => { let x = f32::from_bits(s.u32full()); if x.is_finite() { if x.abs() >= 2147483648.0 { s.label("real>=2^31"); } real_v(x) } else { real_v(1.5) } } } }
-        2 => { let n = s.draw(20) as usize; let kind = s.alt(3, &["str_ascii", "str_anybytes"]); V::Str((0..n).map(|_| if kind == 0 { 0x20 + s.draw(0x5f) as u8 } else { s.byte() }).collect()) }
+        2 => { let n = if s.draw(24) == 0 { s.label("long_string"); match s.draw(4) { 0 => 254 + s.draw(4) as usize, 1 => 65534 + s.draw(4) as usize, _ => 100 + s.draw(5000) as usize } } else { s.draw(20) as usize }; let kind = s.alt(3, &["str_ascii", "str_anybytes", "str_parens_and_escapes"]); V::Str((0..n).map(|_| if kind == 0 { 0x20 + s.draw(0x5f) as u8 } else if kind == 1 { s.byte() } else { *s.pick(&[b'(', b'(', b')', b')', b'\\', b'\r', b'\n', b'a', b'7', b'\t', 8, 12]) }).collect()) }
         3 => {
             let wide = s.alt(2, &["name_plain", "name_wide"]) == 1;
             let n = gen_name(s, wide);
@@ -41,11 +41,16 @@ fn gen_leaf(s: &mut Src) -> V {
 }
 fn gen_tree(s: &mut Src, depth: u32, max_depth: u32) -> V {
     if depth >= max_depth || s.draw(3) == 0 { return gen_leaf(s); }
+    // long containers hold leaves only
+    let long = s.draw(24) == 0;
     if s.draw(2) == 0 {
+        if long { s.label("long_array"); let n = 60 + s.draw(600) as usize; return V::Arr((0..n).map(|_| gen_leaf(s)).collect()); }
         let n = s.draw(4) as usize;
         V::Arr((0..n).map(|_| gen_tree(s, depth + 1, max_depth)).collect())
     } else {
-        let n = s.draw(4) as usize;
+        if long { s.label("long_dict"); }
+        let n = if long { 40 + s.draw(200) as usize } else { s.draw(4) as usize };
+        let depth = if long { max_depth.max(1) - 1 } else { depth };
         let mut items: Vec<(String, V)> = Vec::new();
         for _ in 0..n {
             let wide = s.alt(4, &["key_plain", "key_wide"]) == 1;
@@ -72,7 +77,7 @@ fn gen_case(s: &mut Src, max_depth: u32) -> Case {
         for i in 0..d { v = if i % 2 == 0 { V::Arr(vec![v]) } else { V::Dict(vec![("K".into(), v)]) }; }
         v
     } else { gen_tree(s, 0, max_depth) };
-    let stream_data = if placement == 0 && matches!(v, V::Dict(_)) && s.alt(3, &["no_stream", "as_stream"]) == 1 { Some(s.bytes(60)) } else { None };
+    let stream_data = if placement == 0 && matches!(v, V::Dict(_)) && s.alt(3, &["no_stream", "as_stream"]) == 1 { Some(if s.draw(16) == 0 { s.label("long_stream"); let n = 1000 + s.draw(200_000) as usize; let b = s.byte(); let k = s.draw(3); (0..n).map(|i| match k { 0 => b, 1 => (i * 7 + i / 251) as u8, _ => b"endstream\nendobj\n"[i % 17] }).collect() } else { s.bytes(60) }) } else { None };
     Case { v, placement, stream_data }
 }
 
@@ -207,7 +212,7 @@ pub fn run(run: &Run) {
         run.eval();
         let md = if i % 5 == 0 { 8 } else { 3 };
         check_case(run, "C04", "tree", s, &|s| gen_case(s, md), &oracle, &witness,
-            &|c, s| { run.nontrivial(fnv(format!("{:?}", c).as_bytes())); run.count(&format!("placement:{}", PLACEMENTS[c.placement as usize])); for l in &s.labels { run.count(&format!("label:{}", l)); } if i < 6 { run.sample(witness(c)); } }, json!({"max_depth": md}));
+            &|c, s| { run.nontrivial(fnv(format!("{:?}", c).as_bytes())); run.count(&format!("placement:{}", PLACEMENTS[c.placement as usize])); run.count_labels(&s.labels); if i < 6 { run.sample(witness(c)); } }, json!({"max_depth": md}));
     });
     // thorough: the same quick workload once more under the AddressSanitizer build (memory errors in the library or its dependencies)
     if !run.quick() { crate::lanes::asan_rerun(run); }
